@@ -281,10 +281,40 @@ def _page_index():
     return ctx.pages_seen
 
 
+class PB:
+    """PLAIN-encoded bytes of one BYTE_ARRAY value: `pre` length-prefix bytes followed by the bytes [lo, hi) of the
+    value called `tag`; slicing follows bytes semantics, equality is range equality"""
+
+    def __init__(self, tag, pre, lo, hi):
+        self.tag, self.pre, self.lo, self.hi = tag, pre, lo, hi
+
+    def __len__(self):
+        return self.pre + self.hi - self.lo
+
+    def __getitem__(self, k):
+        if not isinstance(k, slice) or k.step is not None:
+            raise HarnessBroken("bytes index %r" % (k,))
+        n = len(self)
+        a = 0 if k.start is None else (k.start if k.start >= 0 else n + k.start)
+        b = n if k.stop is None else (k.stop if k.stop >= 0 else n + k.stop)
+        a = min(max(a, 0), n)
+        b = min(max(b, a), n)
+        pre = max(0, min(b, self.pre) - min(a, self.pre))
+        vs, ve = max(a, self.pre) - self.pre, max(b, self.pre) - self.pre
+        return PB(self.tag, pre, self.lo + vs, self.lo + ve)
+
+    def same(self, tag, length):
+        return self.tag == tag and (self.pre == 0) and (self.lo == 0) and (self.hi == length)
+
+
 def _s_enc_plain(data, se):
     ctx = _ctx()
     if isinstance(data, tuple) and data[0] == "stat-series":
         ctx.stat_encodes.append(data[1])
+        if isinstance(data[1], PB):
+            # PLAIN BYTE_ARRAY: 4-byte length, then the value's bytes
+            v = data[1]
+            return PB(v.tag, 4, v.lo, v.hi)
         return ("plain-stat", data[1])
     if isinstance(data, _Categories):
         return Seg("dict-values", ctx.dict_len)
@@ -555,6 +585,57 @@ def replay_h_write_column(n, rpp, start, n0, n1, n2, **kw):
         return False, "file consistent and round trip intact"
     finally:
         w.MAX_PAGE_SIZE, w.DATAPAGE_VERSION, w._rows_per_page = old
+        shutil.rmtree(d, ignore_errors=True)
+
+
+# ------------------------------------------------------------- C04: bounds of variable-length columns ---
+def h_bytes_stats(n: int, lmax: int, lmin: int, utf8: bool, h0: int, h1: int, v0: int) -> bool:
+    """
+    pre: 1 <= n < LIM and 0 <= lmax < LIM and 0 <= lmin < LIM and 1 <= h0 < LIM and 1 <= h1 < LIM and 0 <= v0 < LIM
+    post: __return__
+    """
+    # a text/bytes column (one page): the chunk's min/max are the complete encoded values (every byte, no length
+    # prefix), whatever their lengths
+    vmax, vmin = PB("max", 0, 0, lmax), PB("min", 0, 0, lmin)
+    data = SymSeries(n, [0, 0, 0], n, np.dtype("O"), "x", 0, vmax, vmin)
+    f = SymFile(0)
+    ctx = Ctx([h0, h1, 1, 1], [0, 0, 0], [v0, 0, 0], [0, 0, 0], 0, 0)
+    wc = build(ctx, f)
+    se = parquet_thrift.SchemaElement(type=parquet_thrift.Type.BYTE_ARRAY, name="x", repetition_type=0,
+                                      converted_type=parquet_thrift.ConvertedType.UTF8 if utf8 else None)
+    chunk = wc(f, data, se, compression=None, datapage_version=1, stats=True)
+    st = chunk.meta_data.statistics
+    if st is None or not isinstance(st.max, PB) or not isinstance(st.min, PB):
+        return False
+    return st.max.same("max", lmax) and st.min.same("min", lmin)
+
+
+def replay_h_bytes_stats(n, lmax, lmin, utf8, **kw):
+    import shutil, tempfile
+    import fastparquet
+    if lmax > 4000000 or lmin > 4000000:
+        return None, "witness too large for the concrete driver"
+    lo, hi = "a" * lmin, "b" + "c" * max(lmax - 1, 0)
+    if lmax == 0:
+        lo, hi = "", ""
+    vals = [hi, lo] + [lo] * min(max(n - 2, 0), 3)
+    if not utf8:
+        vals = [v.encode() for v in vals]
+    df = pd.DataFrame({"x": vals})
+    d = tempfile.mkdtemp(prefix="c04-")
+    try:
+        fn = os.path.join(d, "t.parq")
+        fastparquet.write(fn, df, stats=True, object_encoding="utf8" if utf8 else "bytes")
+        pf = fastparquet.ParquetFile(fn)
+        st = pf.row_groups[0].columns[0].meta_data.statistics
+        want_max, want_min = max(vals), min(vals)
+        enc = (lambda v: v.encode()) if utf8 else (lambda v: v)
+        if bytes(st.max) != enc(want_max) or bytes(st.min) != enc(want_min):
+            return True, "text column with a largest value of %d bytes and a smallest of %d bytes: stored max is %d " \
+                         "bytes, stored min is %d bytes (not the values)" % (len(enc(want_max)), len(enc(want_min)),
+                                                                           len(st.max), len(st.min))
+        return False, "statistics exact"
+    finally:
         shutil.rmtree(d, ignore_errors=True)
 
 
